@@ -614,6 +614,8 @@ def s_into_iter(ip, st, fr, name, args, c, site):
         return one(v)
     if isinstance(v, X.Adt) and v.path.endswith('ops::Range'):
         return one(X.Iter(None, v.xs[0], v.xs[1], ('range',)))
+    if isinstance(v, X.Adt) and v.path.endswith('ops::RangeInclusive'):
+        return one(X.Iter(None, v.xs[0], T.mk_add(v.xs[1], I(1)), ('range',)))
     if isinstance(v, X.Ref):
         return one(mk_iter(ip, st, v))
     if isinstance(v, X.Sym):
@@ -820,6 +822,8 @@ def as_iter(ip, st, v):
         return X.Iter(ref_to(X.Sym(t, '[%s]' % item_type(v.ty))), I(0), T.typed(('len', t), 'usize'), ('owned',))
     if isinstance(v, X.Adt) and v.path.endswith('ops::Range'):
         return X.Iter(None, v.xs[0], v.xs[1], ('range',))
+    if isinstance(v, X.Adt) and v.path.endswith('ops::RangeInclusive'):
+        return X.Iter(None, v.xs[0], T.mk_add(v.xs[1], I(1)), ('range',))
     raise X.Unanalysable('not an iterator: %r' % (v,))
 
 
